@@ -111,6 +111,7 @@ class CaseOutcome:
     status: str             # ok | violation | crash | timeout | harness
     detail: str = ''        # VIOLATION line / signal name / harness message
     confirmed_alone: bool | None = None
+    last_op: str = ''       # last `OP: ...` line the case printed before it ended (set by run_case_alone)
 
 
 def _parse_batch(out: str):
@@ -137,10 +138,12 @@ def _parse_batch(out: str):
 
 def run_case_alone(code: str, timeout: float = 60.0) -> CaseOutcome:
     r = run_child(code, timeout=timeout)
+    ops = [l[4:] for l in r.out.splitlines() if l.startswith('OP: ')]
+    last_op = ops[-1] if ops else ''
     if r.timed_out:
-        return CaseOutcome('', 'timeout', f'no result within {timeout:.0f}s')
+        return CaseOutcome('', 'timeout', f'no result within {timeout:.0f}s', last_op=last_op)
     if r.crashed:
-        return CaseOutcome('', 'crash', r.signame())
+        return CaseOutcome('', 'crash', r.signame(), last_op=last_op)
     if r.rc == 0:
         return CaseOutcome('', 'ok')
     det = ' | '.join(l for l in r.out.splitlines() if l.startswith('VIOLATION:'))
@@ -175,7 +178,7 @@ def run_batch(cases: list, timeout_per_case: float = 20.0, batch_timeout: float 
             cur = rest[0]
         alone = run_case_alone(code_of[cur], timeout=timeout_per_case)
         if alone.status in ('crash', 'timeout', 'violation'):
-            outcomes[cur] = CaseOutcome(cur, alone.status, alone.detail, confirmed_alone=True)
+            outcomes[cur] = CaseOutcome(cur, alone.status, alone.detail, confirmed_alone=True, last_op=alone.last_op)
         else:
             outcomes[cur] = CaseOutcome(cur, 'crash' if r.crashed else 'timeout',
                                         f'{r.signame()} inside a batch; not reproduced alone', confirmed_alone=False)
@@ -227,3 +230,19 @@ def signum(detail: str) -> int:
     except KeyError:
         digits = ''.join(ch for ch in detail if ch.isdigit())
         return int(digits) if digits else 0
+
+
+def watchdog_script(code: str, timeout: float) -> str:
+    """Replay script for a case that may hang: runs `code` in a child and exits 1 on hang / crash / exit 1."""
+    return (
+        'import subprocess, sys\n'
+        f'CASE = {code!r}\n'
+        'try:\n'
+        f'    r = subprocess.run([sys.executable, "-c", CASE], timeout={timeout!r})\n'
+        'except subprocess.TimeoutExpired:\n'
+        f'    print("VIOLATION: no result within {timeout:.0f} s (deadlock / hang)")\n'
+        '    sys.exit(1)\n'
+        'if r.returncode < 0:\n'
+        '    print("VIOLATION: killed by signal", -r.returncode)\n'
+        'sys.exit(0 if r.returncode == 0 else 1)\n'
+    )
